@@ -7,6 +7,8 @@ type nat =
 
 val fst : ('a1 * 'a2) -> 'a1
 
+val snd : ('a1 * 'a2) -> 'a2
+
 val length : 'a1 list -> nat
 
 val app : 'a1 list -> 'a1 list -> 'a1 list
@@ -18,6 +20,8 @@ type comparison =
 
 val add : nat -> nat -> nat
 
+val mul : nat -> nat -> nat
+
 val sub : nat -> nat -> nat
 
 module Nat :
@@ -25,17 +29,29 @@ module Nat :
   val add : nat -> nat -> nat
 
   val eqb : nat -> nat -> bool
+
+  val leb : nat -> nat -> bool
  end
+
+val nth : nat -> 'a1 list -> 'a1 -> 'a1
 
 val rev : 'a1 list -> 'a1 list
 
 val map : ('a1 -> 'a2) -> 'a1 list -> 'a2 list
 
+val flat_map : ('a1 -> 'a2 list) -> 'a1 list -> 'a2 list
+
 val existsb : ('a1 -> bool) -> 'a1 list -> bool
+
+val forallb : ('a1 -> bool) -> 'a1 list -> bool
+
+val combine : 'a1 list -> 'a2 list -> ('a1 * 'a2) list
 
 val firstn : nat -> 'a1 list -> 'a1 list
 
 val skipn : nat -> 'a1 list -> 'a1 list
+
+val seq : nat -> nat -> nat list
 
 type positive =
 | XI of positive
@@ -145,6 +161,8 @@ val repeat_app : nat -> 'a1 list -> 'a1 list
 
 val nrepeat : n -> 'a1 list -> 'a1 list
 
+val count_while : ('a1 -> bool) -> 'a1 list -> nat
+
 val is_prefix : bytes -> bytes -> bool
 
 val bytes_eqb : bytes -> bytes -> bool
@@ -158,6 +176,8 @@ val is_lower : byte -> bool
 val is_alpha : byte -> bool
 
 val is_digit : byte -> bool
+
+val is_alnum : byte -> bool
 
 val to_lower : byte -> byte
 
@@ -448,6 +468,10 @@ val all_LogicalLineType : logicalLineType list
 
 val commentKind_is_singleline : commentKind -> bool
 
+val conditionalDirectiveKind_is_if : conditionalDirectiveKind -> bool
+
+val conditionalDirectiveKind_is_else : conditionalDirectiveKind -> bool
+
 val tt_of_raw : rawTokenType -> tokenType
 
 type token = { t_ws : bytes; t_content : bytes; t_ty : tokenType }
@@ -462,6 +486,8 @@ val is_eof : tokenType -> bool
 
 val is_sl_comment : tokenType -> bool
 
+val is_comment : tokenType -> bool
+
 val is_keyword : tokenType -> bool
 
 val is_ml_string : tokenType -> bool
@@ -473,6 +499,8 @@ val rs_new : bool -> bool -> n -> n -> rsettings
 val u8_sat_mul : n -> n -> n
 
 val rs_of_config : bool -> bool -> n -> n -> rsettings
+
+val has_break : bytes -> bool
 
 val emit_ws : rsettings -> bool -> ftoken -> bytes
 
@@ -499,6 +527,10 @@ val first_char : bytes -> bytes
 val all_chunks_eq : nat -> bytes -> bytes -> bool
 
 val comment_is_separator : (bytes -> bool) -> bytes -> bool
+
+val flc_comment : bytes -> bytes
+
+val flc_new1 : (bytes -> bool) -> bytes -> bytes -> bytes option
 
 val format_line_comment : (bytes -> bool) -> bytes -> bytes option
 
@@ -527,3 +559,110 @@ val is_directive_ty : tokenType -> bool
 val r01_b : tokenType -> bytes -> bytes -> bool
 
 val tok_ok_b : bytes -> bytes -> bool
+
+type toggle =
+| TOn
+| TOff
+
+val starts_with_icase : bytes -> bytes -> bool
+
+val strip_prefix_icase : bytes -> bytes -> bytes option
+
+val parse_pasfmt_toggle : bytes -> toggle option
+
+val pasfmt_word : bytes
+
+val parse_pasfmt_directive_comment_contents : bytes -> toggle option
+
+val strip_prefix_b : bytes -> bytes -> bytes option
+
+val parse_toggle : bytes -> toggle option
+
+val toggle_marks : bool -> token list -> bool list
+
+val asm_marked : (logicalLineType * nat list) list -> nat -> bool
+
+val ignore_marks :
+  token list -> (logicalLineType * nat list) list -> bool list
+
+val void_lines :
+  bool list -> (logicalLineType * nat list) list -> (logicalLineType * nat
+  list) list
+
+val canon_tok : bool -> ftoken -> bool
+
+val canon_fmt_from : bool -> ftoken list -> bool
+
+val canon_fmt : ftoken list -> bool
+
+val canon_first_bad : bool -> ftoken list -> nat -> nat option
+
+val eof_canon : ftoken list -> bool
+
+val ends_nonblank : bytes -> bool
+
+type tree =
+| Tree of section list
+and section =
+| Flat of bool * nat * nat
+| Nested of tree list
+
+type itok = nat * rawTokenType
+
+val enumerate_from : nat -> rawTokenType list -> itok list
+
+val cd_kind : rawTokenType -> conditionalDirectiveKind option
+
+val parse_flat_go :
+  nat option -> (nat * nat) -> itok list ->
+  ((nat * nat) * conditionalDirectiveKind option) * itok list
+
+val parse_flat :
+  itok list -> (section * conditionalDirectiveKind option) * itok list
+
+val parse_sections :
+  nat -> bool -> itok list -> ((section list * conditionalDirectiveKind
+  option) * itok list) option
+
+val parse_branches : nat -> itok list -> (tree list * itok list) option
+
+val parse_next :
+  nat -> bool -> itok list -> ((tree * conditionalDirectiveKind
+  option) * itok list) option
+
+val parse_fuel : rawTokenType list -> nat
+
+val parse_opt : rawTokenType list -> tree option
+
+val parse : rawTokenType list -> tree
+
+val explored : tree -> bool
+
+val explored_section : section -> bool
+
+val pass_all : ('a1 -> 'a1 * nat list) -> 'a1 list -> 'a1 list * nat list
+
+val pass_find_or_last :
+  ('a1 -> 'a1 * nat list) -> ('a1 -> bool) -> 'a1 list -> 'a1 list * nat list
+
+val range_list : nat -> nat -> nat list
+
+val pass_tree : tree -> tree * nat list
+
+val pass_section : section -> section * nat list
+
+val passes_opt : tree -> nat -> nat list list option
+
+val passes : tree -> nat -> nat list list
+
+type flat_entry = bool * (nat * nat)
+
+val flat_list : tree -> flat_entry list
+
+val flat_list_section : section -> flat_entry list
+
+val nflat : tree -> nat
+
+val passes_fuel : tree -> nat
+
+val all_passes : rawTokenType list -> nat list list
